@@ -443,14 +443,21 @@ func CreateElementValidationIssue(index int, origin string, element any, element
 }
 
 // CreateArrayValidationIssues creates a ZodError from multiple array validation issues.
-func CreateArrayValidationIssues(issues []core.ZodRawIssue) error {
+// The caller's context, when given, supplies the per-parse error map and the
+// ReportInput setting; without one a fresh context is used.
+func CreateArrayValidationIssues(issues []core.ZodRawIssue, ctx ...*core.ParseContext) error {
 	if len(issues) == 0 {
 		return nil
 	}
 
+	pc := core.NewParseContext()
+	if len(ctx) > 0 && ctx[0] != nil {
+		pc = ctx[0]
+	}
+
 	finalizedIssues := make([]core.ZodIssue, len(issues))
 	for i, rawIssue := range issues {
-		finalizedIssues[i] = FinalizeIssue(rawIssue, core.NewParseContext(), nil)
+		finalizedIssues[i] = FinalizeIssue(rawIssue, pc, nil)
 	}
 
 	return NewZodError(finalizedIssues)
